@@ -27,11 +27,11 @@ theorem cli_dests_subset_config :
     optionActions.all (fun a => (configFields.lookup a.dest).isSome) = true := by decide +kernel
 
 /-- how a `Config` field reaches the `generate(...)` call of `main()` -/
-def forwardedOK (f : String) : Bool :=
+def forwardedOK (f : Nat) : Bool :=
   consumedInMain.contains f ||
   specialForward.any (fun s => s.1 == f && mainGenerateCall.contains (s.2.1, s.2.2) &&
     (generateParams.lookup s.2.1).isSome) ||
-  (mainGenerateCall.contains (rename f, "config." ++ f) && (generateParams.lookup (rename f)).isSome)
+  (mainGenerateCallAttr.contains (rename f, k! "config", f) && (generateParams.lookup (rename f)).isSome)
 
 /-- Every `Config` field that is an option is passed to `generate()` as `config.<field>` under the
 same keyword (or a reviewed rename / reviewed loader expression); the call is the only one, is
@@ -51,11 +51,11 @@ theorem defaults_agree :
   decide +kernel
 
 /-- how a parameter of `generate()` reaches the parser constructor -/
-def parserKw (p : String) : Bool :=
+def parserKw (p : Nat) : Bool :=
   (consumedInGenerate.lookup p).isSome || parserCall.contains (p, p) ||
   parserCallSpecial.any (fun s => s.1 == p && parserCall.contains s)
 
-def paramsOf (cls : String) : List String := ((parserParams.lookup cls).getD []).map (·.1)
+def paramsOf (cls : Nat) : List Nat := ((parserParams.lookup cls).getD []).map (·.1)
 
 /-- Every parameter of `generate()` that is a generator option is passed on to the parser
 constructor under its own name (identity expression or a reviewed conditional); every keyword of
@@ -63,11 +63,11 @@ that call is a constructor parameter of all three parser classes; the two review
 (`openapi_scopes` through `kwargs`, `output_datetime_class` as `target_datetime_class`) are there. -/
 theorem generate_params_forwarded_to_parser :
     generateParams.all (fun kv => parserKw kv.1) = true ∧
-    parserCall.all (fun kv => kv.1 == "**" ||
-      ["JsonSchemaParser", "OpenAPIParser", "GraphQLParser"].all (fun c => (paramsOf c).contains kv.1)) = true ∧
-    parserCallKwargs.all (fun kv => (paramsOf "OpenAPIParser").contains kv.1) = true ∧
-    parserCallKwargs.contains ("openapi_scopes", "openapi_scopes") = true ∧
-    parserCall.contains ("target_datetime_class", "output_datetime_class") = true ∧
+    parserCall.all (fun kv => kv.1 == k! "**" ||
+      [k! "JsonSchemaParser", k! "OpenAPIParser", k! "GraphQLParser"].all (fun c => (paramsOf c).contains kv.1)) = true ∧
+    parserCallKwargs.all (fun kv => (paramsOf k! "OpenAPIParser").contains kv.1) = true ∧
+    parserCallKwargs.contains (k! "openapi_scopes", k! "openapi_scopes") = true ∧
+    parserCall.contains (k! "target_datetime_class", k! "output_datetime_class") = true ∧
     parserCallPositional = false ∧ parserCallCount = 1 := by decide +kernel
 
 /-- Each parser subclass hands every constructor parameter it does not consume itself to
@@ -76,15 +76,15 @@ theorem parser_subclasses_forward_to_base :
     superInitCalls.all (fun ck =>
       (paramsOf ck.1).all (fun p =>
         subclassOwnParams.contains (ck.1, p) ||
-        (ck.2.contains (p, p) && (paramsOf "Parser").contains p)) &&
+        (ck.2.contains (p, p) && (paramsOf k! "Parser").contains p)) &&
       !(paramsOf ck.1).isEmpty) = true ∧ superInitCalls.length = 3 := by decide +kernel
 
 /-- Exit status: every `return` of `main()` is `Exit.ERROR` preceded by a message on stderr, or the
 single `Exit.OK` at the end of the `try … else`; `--version` exits 0. -/
 theorem exit_paths_report :
-    mainReturns.all (fun r => (r.1 == "Exit.ERROR" && r.2) || r.1 == "Exit.OK" || r.1 == "sys.exit(0)") = true ∧
-    (mainReturns.filter (fun r => r.1 == "Exit.OK")).length = 1 ∧
-    (mainReturns.getLast?.map (·.1)) = some "Exit.OK" := by decide +kernel
+    mainReturns.all (fun r => (r.1 == k! "Exit.ERROR" && r.2) || r.1 == k! "Exit.OK" || r.1 == k! "sys.exit(0)") = true ∧
+    (mainReturns.filter (fun r => r.1 == k! "Exit.OK")).length = 1 ∧
+    (mainReturns.getLast?.map (·.1)) = some k! "Exit.OK" := by decide +kernel
 
 /-! ### Merge: universal lemmas (any defaults, any validators, any option maps) -/
 
@@ -100,12 +100,12 @@ theorem merge_cli_wins (E : Env) (py : OptMap) (cli : List (Key × Option Val)) 
 
 /-- the same for the two coupled flags, whose command-line value can only be `True` -/
 theorem merge_cli_wins_flag (E : Env) (py : OptMap) (cli : List (Key × Option Val)) (c : Cfg) (k : Key)
-    (hm : merge E py cli = some c) (hk : (given cli).lookup k = some "True")
-    (h : k = kUA ∨ k = kFC) : c k = "True" := by
+    (hm : merge E py cli = some c) (hk : (given cli).lookup k = some k! "True")
+    (h : k = kUA ∨ k = kFC) : c k = k! "True" := by
   obtain ⟨c0, p, _, hp, rfl⟩ := merge_some hm
   have hp' := parse_some hp
   subst hp'
-  have hs : (setArgs cli).lookup k = some "True" := by
+  have hs : (setArgs cli).lookup k = some k! "True" := by
     unfold setArgs coupleAnnotated coupleMsgspec
     rcases h with rfl | rfl
     · split <;> split <;>
@@ -118,9 +118,9 @@ theorem merge_cli_wins_flag (E : Env) (py : OptMap) (cli : List (Key × Option V
   · rfl
   · simp [over, hs]
 
-example : (merge ⟨fun _ => "False", fun _ => true⟩ [("snake_case_field", "False"), ("x", "1")]
-    [("snake_case_field", some "True"), ("x", none)]).map (fun c => (c "snake_case_field", c "x")) =
-    some ("True", "1") := by decide +kernel
+example : (merge ⟨fun _ => k! "False", fun _ => true⟩ [(k! "snake_case_field", k! "False"), (k! "x", k! "1")]
+    [(k! "snake_case_field", some k! "True"), (k! "x", none)]).map (fun c => (c k! "snake_case_field", c k! "x")) =
+    some (k! "True", k! "1") := by decide +kernel
 
 /-- An option not given on the command line (and not one of the two coupled flags) keeps the value
 pyproject.toml gave it, or the default. -/
@@ -170,7 +170,7 @@ example : discover [⟨false, false⟩, ⟨true, false⟩, ⟨true, true⟩] = s
 
 /-- the environment of the real `Config`: defaults from the generated table, the real validators -/
 def realEnv : Env :=
-  ⟨fun k => (configFields.lookup k).getD "None", validConcrete kwOnlyTargets⟩
+  ⟨fun k => (configFields.lookup k).getD (k! "None"), validConcrete kwOnlyTargets⟩
 
 /-- FULL STRENGTH (false of the code, see `three_ways_disagree_msgspec`): whatever set of options,
 the effective value of every option is the same given on the command line or in pyproject.toml. -/
@@ -180,8 +180,8 @@ def ThreeWaysAgree (E : Env) : Prop :=
 /-- REFUTATION on the real tables (known finding D15): `output-model-type = "msgspec.Struct"` forces
 `use_annotated` (and with it `field_constraints`) only when it comes from the command line. -/
 theorem three_ways_disagree_msgspec :
-    (viaCli realEnv [(kOMT, msgspec)]).map (fun c => (c kUA, c kFC)) = some ("True", "True") ∧
-    (viaPyproject realEnv [(kOMT, msgspec)]).map (fun c => (c kUA, c kFC)) = some ("False", "False") := by
+    (viaCli realEnv [(kOMT, msgspec)]).map (fun c => (c kUA, c kFC)) = some (k! "True", k! "True") ∧
+    (viaPyproject realEnv [(kOMT, msgspec)]).map (fun c => (c kUA, c kFC)) = some (k! "False", k! "False") := by
   decide +kernel
 
 theorem three_ways_agree_false : ¬ ThreeWaysAgree realEnv := by
@@ -253,17 +253,17 @@ theorem three_ways_agree_partial (E : Env) (opts : OptMap) (k : Key)
 /-- non-vacuity: the real tables satisfy the environment hypotheses, and a non-trivial option set
 satisfies the msgspec-freeness hypothesis -/
 example : truthy (realEnv.defaults kUA) = false ∧ (parse realEnv []).isSome = true ∧
-    ([("use_annotated", "True"), (kOMT, "typing.TypedDict")] : OptMap).lookup kOMT ≠ some msgspec := by
+    ([(k! "use_annotated", k! "True"), (kOMT, k! "typing.TypedDict")] : OptMap).lookup kOMT ≠ some msgspec := by
   decide +kernel
 
 /-- REFUTATION (finding D22): the validators run on the command-line part alone, so an option set
 that is accepted when given in one place is rejected when split between pyproject.toml and the
 command line — and a combination the validators reject is accepted when split the other way. -/
 theorem split_supply_disagrees :
-    (merge realEnv [] [("snake_case_field", some "True"), ("original_field_name_delimiter", some " ")]).isSome = true ∧
-    (merge realEnv [("snake_case_field", "True")] [("original_field_name_delimiter", some " ")]).isSome = false ∧
-    (merge realEnv [] [(kOMT, some "dataclasses.dataclass"), ("keyword_only", some "True")]).isSome = false ∧
-    (merge realEnv [(kOMT, "dataclasses.dataclass")] [("keyword_only", some "True")]).isSome = true := by
+    (merge realEnv [] [(k! "snake_case_field", some k! "True"), (k! "original_field_name_delimiter", some k! " ")]).isSome = true ∧
+    (merge realEnv [(k! "snake_case_field", k! "True")] [(k! "original_field_name_delimiter", some k! " ")]).isSome = false ∧
+    (merge realEnv [] [(kOMT, some k! "dataclasses.dataclass"), (k! "keyword_only", some k! "True")]).isSome = false ∧
+    (merge realEnv [(kOMT, k! "dataclasses.dataclass")] [(k! "keyword_only", some k! "True")]).isSome = true := by
   decide +kernel
 
 end Dcg.Props.C18
